@@ -58,6 +58,10 @@ type c09Fix struct {
 	tbKeys   [][2]uint64
 	accr     map[uint64]sdk.Dec // per borrow: InterestAccumulated after the accrual, AT THE STATE in which the coming sweep will ask for it
 	poolMod  string // lend pool module name
+	preLaid  uint64 // lend-auction id counter at the last pre-state (generation 1)
+	lendDebts []uint64 // debt assets of the lend pairs (LB, LD)
+	forceEmode bool    // lend fixture: e-mode on both pairs
+	extUsers map[string]bool
 }
 
 func c09Addr(i int) sdk.AccAddress {
@@ -166,6 +170,9 @@ func c09Build(t *testing.T, app *chain.App, ctx sdk.Context, gen int, rng *Rng, 
 	pairID := uint64(0)
 	for _, appID := range f.apps {
 		np := rng.Range(1, 3)
+		if gen == 1 && appID == lendtypes.AppID {
+			np = 0 // generation 1: app id 3 shares its vault offset key with the borrow sweep (separate witness, notes defect 4)
+		}
 		for j := 0; j < np; j++ {
 			cin := f.collat[rng.Intn(len(f.collat))]
 			cout := f.debts[rng.Intn(len(f.debts))]
@@ -218,10 +225,10 @@ func c09Build(t *testing.T, app *chain.App, ctx sdk.Context, gen int, rng *Rng, 
 		}
 		if gen == 2 {
 			if rng.Chance(90) {
-				f.setWl2(appID, rng.Chance(90))
+				f.setWl2E(appID, rng.Chance(80), rng.Chance(35))
 			}
 		} else {
-			if rng.Chance(90) {
+			if rng.Chance(90) && appID != lendtypes.AppID {
 				_ = app.LiquidationKeeper.WasmWhitelistAppIDLiquidation(ctx, appID)
 			}
 			if rng.Chance(90) {
@@ -229,10 +236,10 @@ func c09Build(t *testing.T, app *chain.App, ctx sdk.Context, gen int, rng *Rng, 
 			}
 		}
 	}
-	if gen == 2 {
+	if gen == 2 && rng.Chance(92) { // without them the external-keeper message is rejected; the sweeps do not need them
 		app.NewaucKeeper.SetAuctionParams(ctx, auctionsV2types.AuctionParams{AuctionDurationSeconds: 3600, Step: sdk.MustNewDecFromStr("0.1"),
 			WithdrawalFee: sdk.ZeroDec(), ClosingFee: sdk.ZeroDec(), MinUsdValueLeft: 100000, BidFactor: sdk.MustNewDecFromStr("0.1"),
-			LiquidationPenalty: sdk.MustNewDecFromStr("0.1"), AuctionBonus: sdk.ZeroDec()})
+			LiquidationPenalty: sdk.NewDecWithPrec(int64(rng.Range(0, 150)), 3), AuctionBonus: sdk.NewDecWithPrec(int64(rng.Range(0, 50)), 3)})
 	}
 	// users
 	nUsers := scale(10, 16)
@@ -246,11 +253,21 @@ func c09Build(t *testing.T, app *chain.App, ctx sdk.Context, gen int, rng *Rng, 
 	return f
 }
 
-func (f *c09Fix) setWl2(appID uint64, dutch bool) {
+func (f *c09Fix) setWl2(appID uint64, dutch bool) { f.setWl2E(appID, dutch, false) }
+
+// whitelisting with both auction-type flags (IsDutchActivated selects Dutch; otherwise English is used when activated)
+func (f *c09Fix) setWl2E(appID uint64, dutch, english bool) {
 	d := liq2types.DutchAuctionParam{Premium: sdk.MustNewDecFromStr("0.1"), Discount: sdk.MustNewDecFromStr("0.1"), DecrementFactor: sdk.NewInt(1)}
 	e := liq2types.EnglishAuctionParam{DecrementFactor: sdk.NewInt(1)}
 	f.app.NewliqKeeper.SetLiquidationWhiteListing(f.ctx, liq2types.LiquidationWhiteListing{AppId: appID, Initiator: true, IsDutchActivated: dutch,
-		DutchAuctionParam: &d, IsEnglishActivated: false, EnglishAuctionParam: &e, KeeeperIncentive: sdk.MustNewDecFromStr("0.1")})
+		DutchAuctionParam: &d, IsEnglishActivated: english, EnglishAuctionParam: &e, KeeeperIncentive: sdk.MustNewDecFromStr("0.1")})
+	f.tr.Count(fmt.Sprintf("wl2:dutch=%v,english=%v", dutch, english))
+}
+
+// x/lend auction parameters of an app (generation 1 borrow auctions need them)
+func (f *c09Fix) setLendAuc1(appID uint64) {
+	_ = f.app.LendKeeper.AddAuctionParamsData(f.ctx, lendtypes.AuctionParams{AppId: appID, AuctionDurationSeconds: 21600, Buffer: sdk.MustNewDecFromStr("1.2"),
+		Cusp: sdk.MustNewDecFromStr("0.7"), Step: sdk.NewInt(360), PriceFunctionType: 1, DutchId: 3, BidDurationSeconds: 3600})
 }
 
 func (f *c09Fix) setAuc1(appID uint64) {
@@ -341,9 +358,15 @@ func (f *c09Fix) envLine() {
 		ks, _ := f.app.EsmKeeper.GetKillSwitchData(f.ctx, id)
 		wl, wlFound := f.app.NewliqKeeper.GetLiquidationWhiteListing(f.ctx, id)
 		_, aucFound := f.app.AuctionKeeper.GetAuctionParams(f.ctx, id)
-		aps = append(aps, strings.Join([]string{u(id), b01(found && es.Status), b01(ks.BreakerEnable), b01(wlFound), b01(wlFound && wl.IsDutchActivated), b01(v1wl[id]), b01(aucFound)}, ":"))
+		_, lendAucFound := f.app.LendKeeper.GetAddAuctionParamsData(f.ctx, id)
+		aps = append(aps, strings.Join([]string{u(id), b01(found && es.Status), b01(ks.BreakerEnable), b01(wlFound), b01(wlFound && wl.IsDutchActivated), b01(v1wl[id]), b01(aucFound),
+			b01(wlFound && wl.IsEnglishActivated), b01(lendAucFound)}, ":"))
 	}
-	f.tr.Line("liq.env", "A="+strings.Join(as, ";"), "P="+strings.Join(ps, ";"), "APP="+strings.Join(aps, ";"))
+	ap2 := "-"
+	if ap, ok := f.app.NewaucKeeper.GetAuctionParams(f.ctx); ok {
+		ap2 = ap.LiquidationPenalty.BigInt().String() + ":" + ap.AuctionBonus.BigInt().String()
+	}
+	f.tr.Line("liq.env", "A="+strings.Join(as, ";"), "P="+strings.Join(ps, ";"), "APP="+strings.Join(aps, ";"), "AP2="+ap2)
 }
 
 func (f *c09Fix) offsets() string {
@@ -384,6 +407,13 @@ func (f *c09Fix) auctionModule() string {
 	return auctiontypes.ModuleName
 }
 
+func (f *c09Fix) lendAuctionID() uint64 {
+	if f.gen == 2 {
+		return 0
+	}
+	return f.app.AuctionKeeper.GetLendAuctionID(f.ctx)
+}
+
 func (f *c09Fix) ids() (lockedID, auctionID uint64) {
 	if f.gen == 2 {
 		return f.app.NewliqKeeper.GetLockedVaultID(f.ctx), f.app.NewaucKeeper.GetAuctionID(f.ctx)
@@ -409,6 +439,7 @@ type c09Borrow struct {
 	interestPre, interestPost sdk.Dec
 	pen, bon               sdk.Dec
 	cAsset, lendID, outPool uint64
+	ltv, ltvT1, ltvT2, epen sdk.Dec
 }
 
 func (f *c09Fix) borrowRecords() []c09Borrow {
@@ -462,6 +493,7 @@ func (f *c09Fix) borrowRecords() []c09Borrow {
 		}
 		r.lt, r.elt, r.ltT1, r.ltT2 = nz(rp.LiquidationThreshold), nz(rp.ELiquidationThreshold), nz(r1.LiquidationThreshold), nz(r2.LiquidationThreshold)
 		r.pen, r.bon, r.cAsset = nz(rp.LiquidationPenalty), nz(rp.LiquidationBonus), rp.CAssetID
+		r.ltv, r.ltvT1, r.ltvT2, r.epen = nz(rp.Ltv), nz(r1.Ltv), nz(r2.Ltv), nz(rp.ELiquidationPenalty)
 		out = append(out, r)
 	}
 	return out
@@ -485,7 +517,7 @@ func (f *c09Fix) borrowsField() string {
 		}
 		parts = append(parts, strings.Join([]string{u(r.id), u(r.app), u(r.pool), u(r.assetIn), u(r.assetOut), r.amountIn.String(), r.principal.String(), raw(r.interestPost),
 			r.bridged.String(), u(r.bridgedAsset), u(r.t1), u(r.t2), b01(r.liquidated), b01(r.emode), raw(r.lt), raw(r.elt), raw(r.ltT1), raw(r.ltT2),
-			raw(r.pen), raw(r.bon), u(r.cAsset), u(r.lendID), u(r.outPool)}, ":"))
+			raw(r.pen), raw(r.bon), u(r.cAsset), u(r.lendID), u(r.outPool), raw(r.ltv), raw(r.ltvT1), raw(r.ltvT2), raw(r.epen)}, ":"))
 	}
 	return strings.Join(parts, ";")
 }
@@ -506,12 +538,7 @@ func (f *c09Fix) borrowStats(before bool, judged map[uint64]string) map[uint64]s
 		return nil
 	}
 	out := map[uint64]string{}
-	h, _ := f.app.NewliqKeeper.GetLiquidationOffsetHolder(f.ctx, liq2types.VaultLiquidationsOffsetPrefix, 1)
-	batch := int(f.app.NewliqKeeper.GetParams(f.ctx).LiquidationBatchSize)
-	st, en := liq2types.GetSliceStartEndForLiquidations(len(recs), int(h.CurrentOffset), batch)
-	if st == en {
-		st, en = liq2types.GetSliceStartEndForLiquidations(len(recs), 0, batch)
-	}
+	st, en := f.borrowRange(f.ctx, len(recs))
 	for i, r := range recs {
 		if i < st || i >= en || r.missing || r.liquidated {
 			continue
@@ -550,6 +577,7 @@ func (f *c09Fix) borrowStats(before bool, judged map[uint64]string) map[uint64]s
 }
 
 func (f *c09Fix) pre() []string {
+	f.preLaid = f.lendAuctionID()
 	var vs []string
 	for _, v := range f.app.VaultKeeper.GetVaults(f.ctx) {
 		vs = append(vs, strings.Join([]string{u(v.Id), u(v.AppId), u(v.ExtendedPairVaultID), v.AmountIn.String(), v.AmountOut.String(), v.InterestAccumulated.String(), v.ClosingFeeAccumulated.String(), f.intPost(v).String()}, ":"))
@@ -562,6 +590,7 @@ func (f *c09Fix) pre() []string {
 		pb = c09Bal(f, f.poolMod)
 	}
 	out = append(out, "PB="+pb, "B="+f.borrowsField())
+	out = append(out, f.extraFields()...)
 	// lend positions and pool totals the borrows refer to (the same keys are printed again in the post-state)
 	f.lendIDs, f.tlKeys, f.tbKeys = nil, nil, nil
 	if f.lend {
@@ -585,6 +614,29 @@ func (f *c09Fix) pre() []string {
 		}
 	}
 	return append(out, f.lendFields()...)
+}
+
+// generation 1: lend-auction id counter and the x/lend reserve account; generation 2: app reserve funds (MsgAppReserveFunds) and the
+// x/liquidationsV2 module account
+func (f *c09Fix) extraFields() []string {
+	var ar []string
+	if f.gen == 2 {
+		for _, appID := range f.apps {
+			for _, id := range f.assets {
+				if rf, ok := f.app.NewliqKeeper.GetAppReserveFunds(f.ctx, appID, id); ok {
+					ar = append(ar, u(appID<<32+id)+":"+rf.TokenQuantity.Amount.String())
+				}
+			}
+		}
+	}
+	rb, lq := "", ""
+	if f.gen == 1 && f.lend {
+		rb = c09Bal(f, lendtypes.ModuleName)
+	}
+	if f.gen == 2 {
+		lq = c09Bal(f, liq2types.ModuleName)
+	}
+	return []string{"LAID=" + u(f.lendAuctionID()), "RB=" + rb, "AR=" + strings.Join(ar, ";"), "LQ=" + lq}
 }
 
 // interest on the record after the accrual a seizure would book first (rewards.CalculateVaultInterest uses float
@@ -649,12 +701,12 @@ func (f *c09Fix) post(preLid, preAid uint64) []string {
 			if l.LockedVaultId > preLid {
 				nl = append(nl, strings.Join([]string{u(l.LockedVaultId), u(l.OriginalVaultId), u(l.AppId), l.CollateralToken.Amount.String(), b01(l.InitiatorType == "lend"),
 					l.DebtToken.Amount.String(), l.TargetDebt.Amount.String(), l.FeeToBeCollected.String(), l.BonusToBeGiven.String(),
-					l.CurrentCollaterlisationRatio.BigInt().String(), l.CollateralToBeAuctioned.Amount.String()}, ":"))
+					l.CurrentCollaterlisationRatio.BigInt().String(), l.CollateralToBeAuctioned.Amount.String(), b01(l.IsInternalKeeper)}, ":"))
 			}
 		}
 		for _, a := range f.app.NewaucKeeper.GetAuctions(f.ctx) {
 			if a.AuctionId > preAid {
-				na = append(na, strings.Join([]string{u(a.AuctionId), u(a.LockedVaultId), u(a.CollateralAssetId), a.CollateralToken.Amount.String(), a.DebtToken.Amount.String()}, ":"))
+				na = append(na, strings.Join([]string{u(a.AuctionId), u(a.LockedVaultId), u(a.CollateralAssetId), a.CollateralToken.Amount.String(), a.DebtToken.Amount.String(), b01(a.AuctionType)}, ":"))
 			}
 		}
 	} else {
@@ -662,6 +714,15 @@ func (f *c09Fix) post(preLid, preAid uint64) []string {
 		for _, appID := range f.apps {
 			for _, a := range f.app.AuctionKeeper.GetDutchAuctions(f.ctx, appID) {
 				if a.AuctionId > preAid {
+					na = append(na, strings.Join([]string{u(a.AuctionId), u(a.LockedVaultId), u(a.AssetOutId), a.OutflowTokenInitAmount.Amount.String(), a.InflowTokenTargetAmount.Amount.String()}, ":"))
+					target[a.LockedVaultId] = a.InflowTokenTargetAmount.Amount.String()
+				}
+			}
+		}
+		if f.lend {
+			// generation-1 borrow auctions live in their own store with their own id counter
+			for _, a := range f.app.AuctionKeeper.GetDutchLendAuctions(f.ctx, lendtypes.AppID) {
+				if a.AuctionId > f.preLaid {
 					na = append(na, strings.Join([]string{u(a.AuctionId), u(a.LockedVaultId), u(a.AssetOutId), a.OutflowTokenInitAmount.Amount.String(), a.InflowTokenTargetAmount.Amount.String()}, ":"))
 					target[a.LockedVaultId] = a.InflowTokenTargetAmount.Amount.String()
 				}
@@ -696,7 +757,7 @@ func (f *c09Fix) post(preLid, preAid uint64) []string {
 	}
 	return append([]string{"V=" + strings.Join(vs, ","), "C=" + u(f.app.VaultKeeper.GetLengthOfVault(f.ctx)), "O=" + f.offsets(),
 		"VB=" + c09Bal(f, vaulttypes.ModuleName), "AB=" + c09Bal(f, f.auctionModule()), "LID=" + u(lid), "AID=" + u(aid),
-		"NL=" + strings.Join(nl, ";"), "NA=" + strings.Join(na, ";"), "PB=" + pb, "BL=" + strings.Join(bl, ",")}, f.lendFields()...)
+		"NL=" + strings.Join(nl, ";"), "NA=" + strings.Join(na, ";"), "PB=" + pb, "BL=" + strings.Join(bl, ",")}, append(f.extraFields(), f.lendFields()...)...)
 }
 
 // one block: the REAL BeginBlocker of the generation under test, on the live context (a panic is an outcome)
@@ -729,6 +790,9 @@ func (f *c09Fix) block() string {
 	if l2, _ := f.ids(); l2 > lid {
 		f.tr.Stats["seized:sweep"] += int(l2 - lid)
 	}
+	if !p {
+		f.seizureStats(lid)
+	}
 	fields := append([]string{i64(f.height)}, pre...)
 	fields = append(fields, "=>", outcome)
 	fields = append(fields, f.post(lid, aid)...)
@@ -755,6 +819,7 @@ func (f *c09Fix) liquidateMsg(id uint64, appID uint64, liqType uint64) {
 	f.tr.Count("msg:" + res)
 	if l2, _ := f.ids(); l2 > lid {
 		f.tr.Stats["seized:msg"] += int(l2 - lid)
+		f.seizureStats(lid)
 	}
 	fields := append(head, pre...)
 	fields = append(fields, "=>", res)
@@ -885,7 +950,9 @@ func (f *c09Fix) runSequence(nBlocks int) {
 			case q < 91: // enabling flags
 				appID := f.apps[rng.Intn(len(f.apps))]
 				if f.gen == 2 {
-					f.setWl2(appID, rng.Chance(70))
+					f.setWl2E(appID, rng.Chance(70), rng.Chance(35))
+				} else if appID == lendtypes.AppID {
+					f.setLendAuc1(appID)
 				} else if rng.Chance(50) {
 					_ = f.app.LiquidationKeeper.WasmWhitelistAppIDLiquidation(f.ctx, appID)
 				} else {
@@ -908,13 +975,410 @@ func (f *c09Fix) runSequence(nBlocks int) {
 				if f.lend && rng.Chance(50) { // somebody's liquidate message for a borrow
 					if recs := f.borrowRecords(); len(recs) > 0 {
 						id, lt = recs[rng.Intn(len(recs))].id, 1
+						if rng.Chance(6) {
+							id = uint64(rng.Intn(12))
+						}
+						if f.gen == 1 {
+							f.liquidateBorrowMsgV1(id)
+							continue
+						}
 					}
 				}
 				f.liquidateMsg(id, appID, lt)
 			}
+			f.extraOps()
 		}
+		if f.lend && rng.Chance(25) {
+			f.aimBorrowThresholdExact(int64(rng.Range(-1, 1)))
+		}
+		f.shapeStats()
 		f.block()
 	}
+}
+
+// the context of the NEXT block (height and clock as block() will set them): interest accrues with the clock, so a ratio that
+// is to meet its threshold exactly has to be computed at the time of the judgement
+func (f *c09Fix) nextBlockCtx() sdk.Context {
+	h := f.height + 1
+	return f.ctx.WithBlockHeight(h).WithBlockTime(time.Unix(1700000000+h*6+f.tOffset, 0).UTC())
+}
+
+// boundary-directed threshold: the liquidation threshold (the e-mode one for an e-mode pair) of the collateral asset of a
+// same-pool borrow := its ratio at the next block + {-1, 0, +1} ulp — the strictness of `ratio.GT(threshold)` is decided here
+func (f *c09Fix) aimBorrowThresholdExact(d int64) bool {
+	var cand []c09Borrow
+	recs := f.borrowRecords()
+	st, en := f.borrowRange(f.ctx, len(recs))
+	for i, r := range recs {
+		if i >= st && i < en && !r.missing && !r.liquidated && r.bridged.IsZero() && r.amountIn.IsPositive() {
+			cand = append(cand, r)
+		}
+	}
+	if len(cand) == 0 {
+		return false
+	}
+	r := cand[0] // the first one of the coming range: no earlier seizure of the pass changes its accrual
+	nctx, _ := f.nextBlockCtx().CacheContext()
+	acc, err := f.app.LendKeeper.CalculateBorrowInterestForLiquidation(nctx, r.id)
+	if err != nil {
+		return false
+	}
+	a1, _ := f.app.AssetKeeper.GetAsset(f.ctx, r.assetIn)
+	a2, _ := f.app.AssetKeeper.GetAsset(f.ctx, r.assetOut)
+	var ratio sdk.Dec
+	p, _ := try(func() {
+		ratio, err = f.app.LendKeeper.CalculateCollateralizationRatio(nctx, acc.AmountIn.Amount, a1, acc.AmountOut.Amount.Add(acc.InterestAccumulated.TruncateInt()), a2)
+	})
+	if p || err != nil || !ratio.IsPositive() {
+		return false
+	}
+	rp, _ := f.app.LendKeeper.GetAssetRatesParams(f.ctx, r.assetIn)
+	if r.emode {
+		rp.ELiquidationThreshold = ratio.Add(sdk.NewDecWithPrec(d, 18))
+	} else {
+		rp.LiquidationThreshold = ratio.Add(sdk.NewDecWithPrec(d, 18))
+	}
+	f.app.LendKeeper.SetAssetRatesParams(f.ctx, rp)
+	f.tr.Count(fmt.Sprintf("op:aimborrow-threshold-exact:%d", d))
+	return true
+}
+
+// Strictness of the borrow test, deterministically, both generations: threshold := the ratio the next block computes, exactly ⇒ the
+// borrow stays (`GT`, not `GTE`); threshold := that ratio − 1 ulp ⇒ the sweep seizes it.
+func c09WitnessBorrowStrict(t *testing.T, app *chain.App, base sdk.Context, tr *Trace, gen int) {
+	ctx, _ := base.CacheContext()
+	f := c09Build(t, app, ctx, gen, NewRng(61), tr, true)
+	c09LendFixture(f)
+	f.setBatch(9)
+	if gen == 2 {
+		for _, a := range f.apps {
+			f.setWl2E(a, true, false)
+		}
+	} else {
+		f.setLendAuc1(lendtypes.AppID)
+	}
+	tr.Line("liq.begin", fmt.Sprintf("v%d", gen), "9")
+	f.block()
+	flagged := func() int {
+		n := 0
+		for _, r := range f.borrowRecords() {
+			if r.liquidated {
+				n++
+			}
+		}
+		return n
+	}
+	if !f.aimBorrowThresholdExact(0) {
+		t.Fatal("witness: no same-pool borrow to aim at")
+	}
+	f.block()
+	tr.Set(fmt.Sprintf("witness_borrow_strict_gen%d_flagged_at_equality", gen), flagged())
+	f.aimBorrowThresholdExact(-1)
+	f.block()
+	tr.Set(fmt.Sprintf("witness_borrow_strict_gen%d_flagged_one_ulp_above", gen), flagged())
+}
+
+// statistics only: what kind of seizures the last transition performed (per generation, per auction type)
+func (f *c09Fix) seizureStats(preLid uint64) {
+	if f.gen == 2 {
+		for _, l := range f.app.NewliqKeeper.GetLockedVaults(f.ctx) {
+			if l.LockedVaultId > preLid {
+				ty := "english"
+				if l.AuctionType {
+					ty = "dutch"
+				}
+				f.tr.Count("seizure:gen2:" + l.InitiatorType + ":" + ty)
+			}
+		}
+		return
+	}
+	for _, l := range f.app.LiquidationKeeper.GetLockedVaults(f.ctx) {
+		if l.LockedVaultId > preLid {
+			kind := "vault"
+			if l.Kind != nil {
+				kind = "borrow"
+				if l.AmountIn.IsZero() {
+					kind = "borrow:whole-collateral"
+				}
+			}
+			f.tr.Count("seizure:gen1:" + kind)
+		}
+	}
+}
+
+// statistics only: the shapes of the sweep the liveness part of the property speaks about
+func (f *c09Fix) shapeStats() {
+	n := len(f.app.VaultKeeper.GetVaults(f.ctx))
+	var batch uint64
+	if f.gen == 2 {
+		batch = f.app.NewliqKeeper.GetParams(f.ctx).LiquidationBatchSize
+	} else {
+		batch = f.app.LiquidationKeeper.GetParams(f.ctx).LiquidationBatchSize
+	}
+	if n > 0 && uint64(n) < batch {
+		f.tr.Count("shape:list-shorter-than-batch")
+	}
+	if n == 0 {
+		f.tr.Count("shape:empty-list")
+	}
+	if f.lend && n > 0 {
+		if ids, _ := f.app.LendKeeper.GetBorrows(f.ctx); len(ids) > 0 {
+			f.tr.Count(fmt.Sprintf("shape:block-with-vaults-and-borrows:gen%d", f.gen))
+		}
+	}
+}
+
+// operations added in the depth round: debt-side price moves (the decision uses BOTH prices), governance changing the batch
+// size mid-sweep (zero is rejected by the parameter validator), rescue of an unsafe position before its turn, and the two
+// generation-2 messages that seize nobody
+func (f *c09Fix) extraOps() {
+	rng := f.rng
+	q := rng.Intn(100)
+	vaults := f.app.VaultKeeper.GetVaults(f.ctx)
+	switch {
+	case q < 7: // only the DEBT price moves
+		id := f.debts[rng.Intn(len(f.debts))]
+		if f.lend && rng.Chance(50) {
+			id = f.lendDebts[rng.Intn(len(f.lendDebts))]
+		}
+		tw, _ := f.app.MarketKeeper.GetTwa(f.ctx, id)
+		np := tw.Twa * uint64(rng.Range(80, 125)) / 100
+		if np == 0 {
+			np = 1
+		}
+		f.setPrice(id, np, tw.IsPriceActive)
+		f.tr.Count("op:price-debt-only")
+	case q < 14 && len(vaults) > 0: // debt price aimed at a vault's liquidation ratio (no effect on a fixed-price product)
+		f.aimDebtPrice(vaults[rng.Intn(len(vaults))], int64(rng.Range(-2, 2)))
+	case q < 19 && f.lend: // debt price aimed at a borrow's threshold
+		f.aimBorrowDebt()
+	case q < 25: // governance changes the batch size (possibly in the middle of a sweep)
+		b := uint64(rng.Range(1, 9))
+		if rng.Chance(15) {
+			b = 0
+		}
+		f.setBatchTraced(b)
+	case q < 30 && len(vaults) > 0: // an unsafe position is rescued (collateral price up) before its turn
+		for _, v := range vaults {
+			if cr := f.realCR(v); cr != nil {
+				ep, _ := f.app.AssetKeeper.GetPairsVault(f.ctx, v.ExtendedPairVaultID)
+				if cr.LT(ep.MinCr) {
+					pair, _ := f.app.AssetKeeper.GetPair(f.ctx, ep.PairId)
+					tw, _ := f.app.MarketKeeper.GetTwa(f.ctx, pair.AssetIn)
+					f.setPrice(pair.AssetIn, tw.Twa*uint64(rng.Range(105, 140))/100+1, true)
+					f.tr.Count("op:rescue-unsafe-vault")
+					break
+				}
+			}
+		}
+	case q < 35 && f.gen == 2:
+		f.reserveMsg()
+	case q < 42 && f.gen == 2:
+		f.externalMsg()
+	}
+}
+
+// SetParams the way governance does; the parameter store validates (a zero batch panics)
+func (f *c09Fix) setBatchTraced(b uint64) {
+	cctx, write := f.ctx.CacheContext()
+	p, _ := try(func() {
+		if f.gen == 2 {
+			f.app.NewliqKeeper.SetParams(cctx, liq2types.NewParams(b))
+		} else {
+			f.app.LiquidationKeeper.SetParams(cctx, liqtypes.NewParams(b))
+		}
+	})
+	res := "ok"
+	if p {
+		res = "panic"
+	} else {
+		write()
+	}
+	f.tr.Count(fmt.Sprintf("op:batch-change:%s", res))
+	if b == 0 {
+		f.tr.Count("op:batch-zero:" + res)
+	}
+	f.tr.Line("liq.batch", u(b), res)
+}
+
+// set the DEBT price of vault v's product so that the ratio lands around the liquidation ratio (collateral price untouched)
+func (f *c09Fix) aimDebtPrice(v vaulttypes.Vault, delta int64) {
+	ep, _ := f.app.AssetKeeper.GetPairsVault(f.ctx, v.ExtendedPairVaultID)
+	pair, _ := f.app.AssetKeeper.GetPair(f.ctx, ep.PairId)
+	ain, _ := f.app.AssetKeeper.GetAsset(f.ctx, pair.AssetIn)
+	aout, _ := f.app.AssetKeeper.GetAsset(f.ctx, pair.AssetOut)
+	tin, ok := f.app.MarketKeeper.GetTwa(f.ctx, ain.Id)
+	tot := v.AmountOut.Add(v.InterestAccumulated).Add(v.ClosingFeeAccumulated)
+	if !ok || !tot.IsPositive() {
+		return
+	}
+	vin := sdk.NewDecFromInt(v.AmountIn).MulInt(sdk.NewIntFromUint64(tin.Twa)).QuoInt(ain.Decimals)
+	// CR = vin / (tot·pd/decOut) = MinCr  ⇒  pd = vin·decOut / (MinCr·tot)
+	p := vin.MulInt(aout.Decimals).Quo(ep.MinCr).QuoInt(tot).TruncateInt()
+	if !p.IsUint64() || p.IsZero() {
+		return
+	}
+	pp := int64(p.Uint64()) + delta
+	if pp < 1 {
+		pp = 1
+	}
+	f.setPrice(aout.Id, uint64(pp), true)
+	if ep.AssetOutOraclePrice {
+		f.tr.Count("op:aim-debt-price:oracle-priced")
+	} else {
+		f.tr.Count("op:aim-debt-price:fixed-priced(no effect)")
+	}
+}
+
+// move the DEBT price of a random open borrow so that its ratio lands on its threshold (collateral price untouched)
+func (f *c09Fix) aimBorrowDebt() {
+	var open []c09Borrow
+	for _, r := range f.borrowRecords() {
+		if !r.missing && !r.liquidated && r.amountIn.IsPositive() && r.debt.IsPositive() {
+			open = append(open, r)
+		}
+	}
+	if len(open) == 0 {
+		return
+	}
+	r := open[f.rng.Intn(len(open))]
+	base := r.lt
+	if r.emode {
+		base = r.elt
+		if f.rng.Chance(40) {
+			base = r.lt // the threshold the e-mode pair would have WITHOUT e-mode: between the two lies the e-mode band
+			f.tr.Count("op:aimborrow-debt:emode-band")
+		}
+	}
+	target := base
+	if !r.bridged.IsZero() {
+		target = base.Mul(r.ltT2)
+		if r.bridgedAsset == r.t1 {
+			target = base.Mul(r.ltT1)
+		}
+	}
+	if !target.IsPositive() {
+		return
+	}
+	a1, _ := f.app.AssetKeeper.GetAsset(f.ctx, r.assetIn)
+	a2, _ := f.app.AssetKeeper.GetAsset(f.ctx, r.assetOut)
+	tw1, _ := f.app.MarketKeeper.GetTwa(f.ctx, r.assetIn)
+	// ratio = debt·pOut/dOut / (amtIn·pIn/dIn) = target  ⇒  pOut = target·amtIn·pIn·dOut / (dIn·debt)
+	p := target.MulInt(r.amountIn).MulInt64(int64(tw1.Twa)).MulInt(a2.Decimals).QuoInt(a1.Decimals).QuoInt(r.debt).TruncateInt()
+	if !p.IsUint64() || p.IsZero() {
+		return
+	}
+	pp := int64(p.Uint64()) + int64(f.rng.Range(-1, 1))
+	if pp < 1 {
+		pp = 1
+	}
+	f.setPrice(r.assetOut, uint64(pp), true)
+	f.tr.Count("op:aimborrow-debt")
+}
+
+// generation 1: somebody's MsgLiquidateBorrow
+func (f *c09Fix) liquidateBorrowMsgV1(id uint64) {
+	f.envLine()
+	f.accr = nil
+	pre := f.pre()
+	lid, aid := f.ids()
+	from := f.users[f.rng.Intn(len(f.users))].String()
+	res := c09Deliver(f.app, f.ctx, &liqtypes.MsgLiquidateBorrowRequest{From: from, BorrowId: id})
+	f.tr.Count("msgb:" + res)
+	if l2, _ := f.ids(); l2 > lid {
+		f.tr.Stats["seized:msgb"] += int(l2 - lid)
+		f.seizureStats(lid)
+	}
+	fields := append([]string{u(id)}, pre...)
+	fields = append(fields, "=>", res)
+	fields = append(fields, f.post(lid, aid)...)
+	f.tr.Line("liq.msgb", fields...)
+}
+
+// generation 2: MsgAppReserveFunds (an app's reserve for external liquidations)
+func (f *c09Fix) reserveMsg() {
+	rng := f.rng
+	appID := f.apps[rng.Intn(len(f.apps))]
+	if rng.Chance(8) {
+		appID = uint64(rng.Range(0, 6))
+	}
+	assetID := f.debts[rng.Intn(len(f.debts))]
+	if rng.Chance(25) {
+		assetID = f.assets[rng.Intn(len(f.assets))]
+	}
+	if rng.Chance(6) {
+		assetID = uint64(rng.Range(60, 90)) * uint64(rng.Intn(2))
+	}
+	denom := f.denom(assetID)
+	denomOK := denom != ""
+	if rng.Chance(15) || denom == "" {
+		denom, denomOK = f.denom(f.assets[0]), assetID == f.assets[0]
+	}
+	amt := sdk.NewInt(int64(rng.Range(0, 5000000)))
+	user := f.users[rng.Intn(len(f.users))]
+	bal := f.app.BankKeeper.GetBalance(f.ctx, user, denom).Amount
+	f.envLine()
+	f.accr = nil
+	pre := f.pre()
+	lid, aid := f.ids()
+	res := c09Deliver(f.app, f.ctx, &liq2types.MsgAppReserveFundsRequest{From: user.String(), AppId: appID, AssetId: assetID, TokenQuantity: sdk.NewCoin(denom, amt)})
+	f.tr.Count("reserve:" + res)
+	fields := append([]string{u(appID), u(assetID), b01(denomOK), amt.String(), bal.String()}, pre...)
+	fields = append(fields, "=>", res)
+	fields = append(fields, f.post(lid, aid)...)
+	f.tr.Line("liq.reserve", fields...)
+}
+
+// generation 2: MsgLiquidateExternalKeeper — an outside keeper brings collateral of his own to be auctioned
+func (f *c09Fix) externalMsg() {
+	rng := f.rng
+	appID := f.apps[rng.Intn(len(f.apps))]
+	if rng.Chance(6) {
+		appID = uint64(rng.Range(0, 6))
+	}
+	col := f.collat[rng.Intn(len(f.collat))]
+	debt := f.debts[rng.Intn(len(f.debts))]
+	if rng.Chance(75) { // mostly an (app, debt asset) for which reserve funds exist
+		var have [][2]uint64
+		for _, a := range f.apps {
+			for _, d := range f.assets {
+				if rf, ok := f.app.NewliqKeeper.GetAppReserveFunds(f.ctx, a, d); ok && rf.TokenQuantity.Amount.IsPositive() {
+					have = append(have, [2]uint64{a, d})
+				}
+			}
+		}
+		if len(have) > 0 {
+			h := have[rng.Intn(len(have))]
+			appID, debt = h[0], h[1]
+		}
+	}
+	colID, debtID := col, debt
+	if rng.Chance(5) {
+		colID = uint64(rng.Range(60, 90)) // unknown asset id
+	}
+	if rng.Chance(8) {
+		debtID = uint64(rng.Range(60, 90))
+	}
+	user := f.users[rng.Intn(len(f.users))]
+	bal := f.app.BankKeeper.GetBalance(f.ctx, user, f.denom(col)).Amount
+	colAmt := sdk.NewInt(int64(rng.Range(0, 900000000)))
+	if rng.Chance(6) {
+		colAmt = bal.AddRaw(int64(rng.Range(1, 1000))) // more than the keeper holds
+	}
+	debtAmt := sdk.NewInt(int64(rng.Range(0, 900000000)))
+	f.envLine()
+	f.accr = nil
+	pre := f.pre()
+	lid, aid := f.ids()
+	msg := &liq2types.MsgLiquidateExternalKeeperRequest{From: user.String(), AppId: appID, Owner: f.users[rng.Intn(len(f.users))].String(),
+		CollateralToken: sdk.NewCoin(f.denom(col), colAmt), DebtToken: sdk.NewCoin(f.denom(debt), debtAmt),
+		CollateralAssetId: colID, DebtAssetId: debtID, IsDebtCmst: rng.Chance(50)}
+	res := c09Deliver(f.app, f.ctx, msg)
+	f.tr.Count("external:" + res)
+	fields := append([]string{u(appID), u(colID), u(debtID), colAmt.String(), debtAmt.String(), bal.String()}, pre...)
+	fields = append(fields, "=>", res)
+	fields = append(fields, f.post(lid, aid)...)
+	f.tr.Line("liq.ext", fields...)
 }
 
 func c09SliceCheck(tr *Trace, l, o, b int) {
@@ -941,7 +1405,15 @@ func TestC09(t *testing.T) {
 		c09WitnessStarved(t, app, base, tr, 1, 3)
 	}
 	c09WitnessBorrowLeak(t, app, base, tr) // repaired by c15713f: nothing is flagged, nothing moves
-	c09WitnessTransitBand(t, app, base, tr)
+	c09WitnessTransitBand(t, app, base, tr, 2)
+	c09WitnessTransitBandMsgFirst(t, app, base, tr) // generation 1: the MESSAGE judges the band before the sweep gets there
+	c09WitnessGuardsV1(t, app, base, tr)
+	c09WitnessBorrowGuards(t, app, base, tr, 1)
+	c09WitnessBorrowGuards(t, app, base, tr, 2)
+	c09WitnessBorrowStrict(t, app, base, tr, 1)
+	c09WitnessBorrowStrict(t, app, base, tr, 2)
+	c09WitnessEmodeMsgV1(t, app, base, tr)  // NEW finding: generation-1 MsgLiquidateBorrow ignores e-mode
+	c09WitnessAuctionTypesV2(t, app, base, tr) // English-only and no-type whitelistings
 
 	// ---- pure helper: GetSliceStartEndForLiquidations, exhaustive small and wide random
 	for l := -2; l <= 9; l++ {
@@ -980,7 +1452,7 @@ func TestC09(t *testing.T) {
 	for s := 0; s < nSeq; s++ {
 		gen := 1 + s%2
 		ctx, _ := base.CacheContext()
-		withLend := gen == 2 && s%4 == 1
+		withLend := (gen == 2 && s%4 == 1) || (gen == 1 && s%4 == 2)
 		f := c09Build(t, app, ctx, gen, rng, tr, withLend)
 		if withLend {
 			c09LendFixture(f)
@@ -1183,6 +1655,10 @@ func c09LendFixture(f *c09Fix) {
 	f.poolMod = "cmdx"
 	f.lend = true
 	f.lendCol, f.lendCol2 = la, lb
+	f.lendDebts = []uint64{lb, ld}
+	if f.gen == 1 && rng.Chance(88) {
+		f.setLendAuc1(lendtypes.AppID)
+	}
 	var samePair, crossPair uint64
 	for _, p := range app.LendKeeper.GetLendPairs(ctx) {
 		if p.AssetIn == la && p.AssetOut == lb && !p.IsInterPool {
@@ -1206,10 +1682,10 @@ func c09LendFixture(f *c09Fix) {
 		app.LendKeeper.SetAssetRatesParams(ctx, rp)
 		f.tr.Count("lend:emode")
 	}
-	if rng.Chance(35) {
+	if rng.Chance(35) || f.forceEmode {
 		setE(samePair, la)
 	}
-	if rng.Chance(35) {
+	if rng.Chance(35) || f.forceEmode {
 		setE(crossPair, lb)
 	}
 	for _, a := range f.users {
@@ -1505,16 +1981,20 @@ func c09WitnessBorrowLeak(t *testing.T, app *chain.App, base sdk.Context, tr *Tr
 // cross-pool borrows through BOTH transit assets, transit thresholds different; the collateral price is put in the middle
 // of the band between the two composite thresholds: exactly the borrows whose OWN composite threshold is the lower one
 // may be seized (sweep, then messages). A swap of first/second transit asset in the decision inverts this.
-func c09WitnessTransitBand(t *testing.T, app *chain.App, base sdk.Context, tr *Trace) {
+func c09WitnessTransitBand(t *testing.T, app *chain.App, base sdk.Context, tr *Trace, gen int) {
 	for _, sd := range []uint64{21, 22, 23} {
 		ctx, _ := base.CacheContext()
-		f := c09Build(t, app, ctx, 2, NewRng(sd), tr, true)
+		f := c09Build(t, app, ctx, gen, NewRng(sd), tr, true)
 		c09LendFixture(f)
 		f.setBatch(7)
-		for _, a := range f.apps {
-			f.setWl2(a, true)
+		if gen == 2 {
+			for _, a := range f.apps {
+				f.setWl2(a, true)
+			}
+		} else {
+			f.setLendAuc1(lendtypes.AppID)
 		}
-		tr.Line("liq.begin", "v2", "7")
+		tr.Line("liq.begin", fmt.Sprintf("v%d", gen), "7")
 		f.block()
 		var cross []c09Borrow
 		for _, r := range f.borrowRecords() {
@@ -1528,13 +2008,230 @@ func c09WitnessTransitBand(t *testing.T, app *chain.App, base sdk.Context, tr *T
 		f.aimBorrowAt(cross[0], 2, 0)
 		f.block()
 		for _, r := range cross {
-			f.liquidateMsg(r.id, 3, 1)
+			if gen == 2 {
+				f.liquidateMsg(r.id, 3, 1)
+			} else {
+				f.liquidateBorrowMsgV1(r.id)
+			}
 		}
 		f.aimBorrowAt(cross[len(cross)-1], 2, 0)
 		f.block()
 		for _, r := range cross {
+			if gen == 2 {
+				f.liquidateMsg(r.id, 3, 1)
+			} else {
+				f.liquidateBorrowMsgV1(r.id)
+			}
+		}
+	}
+}
+
+// Generation 1 guards, deterministically: executed ESM, kill switch, inactive collateral price — the unsafe vault stays through
+// sweep and message each time — then everything off: seized.
+func c09WitnessGuardsV1(t *testing.T, app *chain.App, base sdk.Context, tr *Trace) {
+	f := c09Simple(t, app, base, 1, tr, 1)
+	f.setBatch(4)
+	tr.Line("liq.begin", "v1", "4")
+	for i, cr := range []int64{2000, 1067} {
+		if res := f.createVault(f.users[i], 1, sdk.NewInt(1000000), cr); res != "ok" {
+			t.Fatalf("witness: create vault: %s", res)
+		}
+	}
+	f.setPrice(1, 1800000, true)
+	step := func() {
+		f.block()
+		f.liquidateMsg(2, 1, 0)
+	}
+	f.app.EsmKeeper.SetESMStatus(f.ctx, esmtypes.ESMStatus{AppId: 1, Status: true})
+	step()
+	f.app.EsmKeeper.SetESMStatus(f.ctx, esmtypes.ESMStatus{AppId: 1, Status: false})
+	_ = f.app.EsmKeeper.SetKillSwitchData(f.ctx, esmtypes.KillSwitchParams{AppId: 1, BreakerEnable: true})
+	step()
+	_ = f.app.EsmKeeper.SetKillSwitchData(f.ctx, esmtypes.KillSwitchParams{AppId: 1, BreakerEnable: false})
+	f.setPrice(1, 1800000, false)
+	step()
+	_, still := f.app.VaultKeeper.GetVault(f.ctx, 2)
+	tr.Set("witness_guards_v1_vault2_still_open_under_guards", still)
+	f.setPrice(1, 1800000, true)
+	f.block()
+	_, still = f.app.VaultKeeper.GetVault(f.ctx, 2)
+	tr.Set("witness_guards_v1_vault2_still_open_after_guards_off", still)
+}
+
+// Borrow guards, deterministically, both generations: all borrows far under water; with the kill switch of the lend app on, neither
+// the sweep nor a message may touch them (generation 2 also: lend app not whitelisted); guards off: the sweep seizes.
+func c09WitnessBorrowGuards(t *testing.T, app *chain.App, base sdk.Context, tr *Trace, gen int) {
+	ctx, _ := base.CacheContext()
+	f := c09Build(t, app, ctx, gen, NewRng(51), tr, true)
+	c09LendFixture(f)
+	f.setBatch(9)
+	if gen == 2 {
+		for _, a := range f.apps {
+			f.setWl2E(a, true, false)
+		}
+	} else {
+		f.setLendAuc1(lendtypes.AppID)
+	}
+	tr.Line("liq.begin", fmt.Sprintf("v%d", gen), "9")
+	f.block()
+	f.setPrice(f.lendCol, 1000000, true) // LA 2.0 -> 1.0, LB 2.0 -> 1.4: same-pool (LA/LB) and cross-pool (LB/LD) borrows are all far above their thresholds
+	f.setPrice(f.lendCol2, 1400000, true)
+	msgs := func() {
+		for _, r := range f.borrowRecords() {
+			if gen == 2 {
+				f.liquidateMsg(r.id, 3, 1)
+			} else {
+				f.liquidateBorrowMsgV1(r.id)
+			}
+		}
+	}
+	flagged := func() int {
+		n := 0
+		for _, r := range f.borrowRecords() {
+			if r.liquidated {
+				n++
+			}
+		}
+		return n
+	}
+	_ = f.app.EsmKeeper.SetKillSwitchData(f.ctx, esmtypes.KillSwitchParams{AppId: lendtypes.AppID, BreakerEnable: true})
+	f.block()
+	msgs()
+	tr.Set(fmt.Sprintf("witness_borrow_guards_gen%d_flagged_under_killswitch", gen), flagged())
+	_ = f.app.EsmKeeper.SetKillSwitchData(f.ctx, esmtypes.KillSwitchParams{AppId: lendtypes.AppID, BreakerEnable: false})
+	if gen == 2 {
+		f.ctx.KVStore(f.app.GetKey(liq2types.StoreKey)).Delete(liq2types.LiquidationWhiteListingKey(lendtypes.AppID)) // the keeper has no delete: state as before the app was whitelisted
+		f.block()
+		msgs()
+		tr.Set("witness_borrow_guards_gen2_flagged_without_whitelisting", flagged())
+		f.setWl2E(lendtypes.AppID, true, false)
+	}
+	recs := f.borrowRecords()
+	if gen == 1 && len(recs) > 0 {
+		f.liquidateBorrowMsgV1(recs[0].id) // one by message, the rest by the sweep
+	} else if len(recs) > 0 {
+		f.liquidateMsg(recs[0].id, 3, 1)
+	}
+	f.block()
+	tr.Set(fmt.Sprintf("witness_borrow_guards_gen%d_flagged_after_guards_off", gen), flagged())
+}
+
+// Generation 1, e-mode pair: the collateral price is put in the middle of the band between the pair's normal threshold and
+// its e-mode threshold. The block sweep (e-mode aware, liquidate_borrow.go:82-85) must leave the borrow alone; anybody's
+// MsgLiquidateBorrow (msg_server.go:153: `liqThreshold.LiquidationThreshold`, e-mode ignored) seizes it although it is SAFE
+// under the applicable (e-mode) threshold ⇒ MON gen1_msg_borrow_ignores_emode. Lean: C09.v1_msg_borrow_ignores_emode_counterexample.
+func c09WitnessEmodeMsgV1(t *testing.T, app *chain.App, base sdk.Context, tr *Trace) {
+	for _, sd := range []uint64{31, 32} {
+		ctx, _ := base.CacheContext()
+		f := c09Build(t, app, ctx, 1, NewRng(sd), tr, true)
+		f.forceEmode = true
+		c09LendFixture(f)
+		f.setLendAuc1(lendtypes.AppID)
+		f.setBatch(7)
+		tr.Line("liq.begin", "v1", "7")
+		f.block()
+		var same []c09Borrow
+		for _, r := range f.borrowRecords() {
+			if r.bridged.IsZero() && r.emode && !r.liquidated {
+				same = append(same, r)
+			}
+		}
+		if len(same) == 0 {
+			t.Fatal("witness: no same-pool e-mode borrow")
+		}
+		r := same[0]
+		// ratio = (LT + ELT)/2: above the normal threshold, below the e-mode one
+		target := r.lt.Add(r.elt).QuoInt64(2)
+		a1, _ := f.app.AssetKeeper.GetAsset(f.ctx, r.assetIn)
+		a2, _ := f.app.AssetKeeper.GetAsset(f.ctx, r.assetOut)
+		tw2, _ := f.app.MarketKeeper.GetTwa(f.ctx, r.assetOut)
+		p := sdk.NewDecFromInt(r.debt).MulInt64(int64(tw2.Twa)).MulInt(a1.Decimals).QuoInt(a2.Decimals).QuoInt(r.amountIn).Quo(target).TruncateInt()
+		f.setPrice(r.assetIn, p.Uint64(), true)
+		f.block() // the sweep judges with the e-mode threshold: nothing happens
+		f.block()
+		bp, _ := f.app.LendKeeper.GetBorrow(f.ctx, r.id)
+		tr.Set(fmt.Sprintf("witness_emode_v1_seed%d_flagged_by_sweep", sd), bp.IsLiquidated)
+		f.liquidateBorrowMsgV1(r.id) // the message judges with the normal threshold: seized
+		bp, _ = f.app.LendKeeper.GetBorrow(f.ctx, r.id)
+		tr.Set(fmt.Sprintf("witness_emode_v1_seed%d_flagged_by_message", sd), bp.IsLiquidated)
+	}
+}
+
+// Generation 2, which auction type the whitelisting selects. (a) English only: an unsafe BORROW is seized and sold by an English
+// auction (liquidate.go:387 `AuctionType = IsDutchActivated`, :210-215); an unsafe VAULT is never seized (liquidate.go:136 demands
+// Dutch) — neither by the sweep nor by a message. (b) neither type: nothing is seized at all, no collateral moves without an auction.
+func c09WitnessAuctionTypesV2(t *testing.T, app *chain.App, base sdk.Context, tr *Trace) {
+	for _, english := range []bool{true, false} {
+		ctx, _ := base.CacheContext()
+		f := c09Build(t, app, ctx, 2, NewRng(41), tr, true)
+		c09LendFixture(f)
+		f.setBatch(9)
+		for _, a := range f.apps {
+			f.setWl2E(a, false, english)
+		}
+		tr.Line("liq.begin", "v2", "9")
+		for i := 0; i < 4; i++ {
+			f.createVault(f.users[i], f.products[i%len(f.products)], sdk.NewInt(5000000), 1100)
+		}
+		f.block()
+		for _, id := range f.collat {
+			tw, _ := f.app.MarketKeeper.GetTwa(f.ctx, id)
+			f.setPrice(id, tw.Twa*70/100, true)
+		}
+		f.setPrice(f.lendCol, 1400000, true)
+		f.setPrice(f.lendCol2, 1300000, true)
+		f.block()
+		f.block()
+		for _, v := range f.app.VaultKeeper.GetVaults(f.ctx) {
+			f.liquidateMsg(v.Id, v.AppId, 0)
+		}
+		for _, r := range f.borrowRecords() {
 			f.liquidateMsg(r.id, 3, 1)
 		}
+		n := 0
+		for _, r := range f.borrowRecords() {
+			if r.liquidated {
+				n++
+			}
+		}
+		lid, aid := f.ids()
+		tr.Set(fmt.Sprintf("witness_auction_types_english=%v_flagged_borrows", english), n)
+		tr.Set(fmt.Sprintf("witness_auction_types_english=%v_locked_vaults", english), lid)
+		tr.Set(fmt.Sprintf("witness_auction_types_english=%v_auctions", english), aid)
+		tr.Set(fmt.Sprintf("witness_auction_types_english=%v_vaults_left", english), len(f.app.VaultKeeper.GetVaults(f.ctx)))
+	}
+}
+
+// Generation 1 message on cross-pool borrows inside the band between the two composite thresholds (non-e-mode populations, so that
+// D35 does not interfere): the price is put in the middle of the band and every cross-pool borrow is addressed by MsgLiquidateBorrow
+// BEFORE the sweep looks at it: exactly those whose OWN composite threshold is the lower one may be seized.
+func c09WitnessTransitBandMsgFirst(t *testing.T, app *chain.App, base sdk.Context, tr *Trace) {
+	for _, sd := range []uint64{71, 72, 73, 74} {
+		ctx, _ := base.CacheContext()
+		f := c09Build(t, app, ctx, 1, NewRng(sd), tr, true)
+		c09LendFixture(f)
+		f.setLendAuc1(lendtypes.AppID)
+		f.setBatch(7)
+		tr.Line("liq.begin", "v1", "7")
+		f.block()
+		var cross []c09Borrow
+		for _, r := range f.borrowRecords() {
+			if !r.bridged.IsZero() && !r.emode {
+				cross = append(cross, r)
+			}
+		}
+		if len(cross) == 0 {
+			continue
+		}
+		f.aimBorrowAt(cross[0], 2, 0)
+		for _, r := range cross {
+			f.liquidateBorrowMsgV1(r.id)
+		}
+		f.aimBorrowAt(cross[len(cross)-1], 2, 0)
+		for _, r := range cross {
+			f.liquidateBorrowMsgV1(r.id)
+		}
+		f.block()
 	}
 }
 
@@ -1605,28 +2302,47 @@ func (f *c09Fix) borrowAccrualStat(r c09Borrow) {
 // The external value is therefore taken at the state in which the sweep will ask for it: the real per-borrow steps are
 // run, in the sweep's order and wrapped like the sweep wraps them, on a throw-away branch.
 func (f *c09Fix) borrowAccruals() map[uint64]sdk.Dec {
-	if !f.lend || f.gen != 2 {
+	if !f.lend {
 		return nil
 	}
 	out := map[uint64]sdk.Dec{}
 	cctx, _ := f.ctx.CacheContext()
 	ids, _ := f.app.LendKeeper.GetBorrows(cctx)
-	h, _ := f.app.NewliqKeeper.GetLiquidationOffsetHolder(cctx, liq2types.VaultLiquidationsOffsetPrefix, 1)
-	batch := int(f.app.NewliqKeeper.GetParams(cctx).LiquidationBatchSize)
-	st, en := liq2types.GetSliceStartEndForLiquidations(len(ids), int(h.CurrentOffset), batch)
-	if st == en {
-		st, en = liq2types.GetSliceStartEndForLiquidations(len(ids), 0, batch)
-	}
-	for _, id := range ids[st:en] {
-		id := id
+	st, en := f.borrowRange(cctx, len(ids))
+	for ix := st; ix < en; ix++ {
+		id, ix := ids[ix], ix
 		try(func() {
 			if acc, err := f.app.LendKeeper.CalculateBorrowInterestForLiquidation(cctx, id); err == nil {
 				out[id] = acc.InterestAccumulated
 			}
-			_ = utils.ApplyFuncIfNoError(cctx, func(c sdk.Context) error { return f.app.NewliqKeeper.LiquidateIndividualBorrow(c, id, "", false) })
+			if f.gen == 2 {
+				_ = utils.ApplyFuncIfNoError(cctx, func(c sdk.Context) error { return f.app.NewliqKeeper.LiquidateIndividualBorrow(c, id, "", false) })
+			} else {
+				// generation 1 has no per-borrow entry point: run the real sweep over exactly this index (offset = index, batch 1)
+				f.app.LiquidationKeeper.SetParams(cctx, liqtypes.NewParams(1))
+				f.app.LiquidationKeeper.SetLiquidationOffsetHolder(cctx, liqtypes.VaultLiquidationsOffsetPrefix, liqtypes.NewLiquidationOffsetHolder(lendtypes.AppID, uint64(ix)))
+				_ = f.app.LiquidationKeeper.LiquidateBorrows(cctx)
+			}
 		})
 	}
 	return out
+}
+
+// the index range of the borrow list the coming borrow pass of the generation under test will look at
+func (f *c09Fix) borrowRange(ctx sdk.Context, n int) (int, int) {
+	var off, batch int
+	if f.gen == 2 {
+		h, _ := f.app.NewliqKeeper.GetLiquidationOffsetHolder(ctx, liq2types.VaultLiquidationsOffsetPrefix, 1)
+		off, batch = int(h.CurrentOffset), int(f.app.NewliqKeeper.GetParams(ctx).LiquidationBatchSize)
+	} else {
+		h, _ := f.app.LiquidationKeeper.GetLiquidationOffsetHolder(ctx, lendtypes.AppID, liqtypes.VaultLiquidationsOffsetPrefix)
+		off, batch = int(h.CurrentOffset), int(f.app.LiquidationKeeper.GetParams(ctx).LiquidationBatchSize)
+	}
+	st, en := liq2types.GetSliceStartEndForLiquidations(n, off, batch)
+	if st == en {
+		st, en = liq2types.GetSliceStartEndForLiquidations(n, 0, batch)
+	}
+	return st, en
 }
 
 // generation 1 borrow sell-off: the real UpdateLockedBorrows (direct keeper call on a throw-away branch; the generation-1
@@ -1699,6 +2415,12 @@ func (f *c09Fix) sellOffChecks() {
 			}
 			got, found := f.app.LiquidationKeeper.GetLockedVault(cctx, lv.AppId, lv.LockedVaultId)
 			in := []string{bp.AmountIn.Amount.String(), updatedOut.String(), u(t1.Twa), u(t2.Twa), a1.Decimals.String(), a2.Decimals.String(), raw(c), raw(pen), raw(rp.LiquidationBonus)}
+			if !found && uerr != nil && strings.Contains(uerr.Error(), "insufficient funds") {
+				// the pool cannot pay what the (uncapped, D33) sell-off asks for: the bank refuses. The pure function `sellOffV1` does not
+				// see balances; the end-to-end model (`seizeBorrowV1`) has this guard and is compared on every block / message.
+				f.tr.Count("selloff:err-pool-cannot-pay")
+				continue
+			}
 			if !found {
 				f.tr.Count("selloff:err")
 				f.tr.Line("liq.selloff.single", append(in, "0", "0", "0", "0", "0", "0", "0", "err")...)
